@@ -1864,3 +1864,58 @@ def gen_shape_loop():
             'inverse operation, vstack, centring, Cartesian conversion); generated selection = Model.C17.selected; generated per-position result (inverse operation '
             'applied to the re-imaged position, minus the site) proved equal to Model.C17.points for every list of operations paired with their inverses', ok,
             'ok' if ok else log[-900:])
+
+
+# ---------------------------------------------------------------- unit: occupancy bookkeeping and the dense count matrix (C05)
+def occupancy_unit():
+    tree = _parse('transitions.py')
+    occ = [ast.unparse(s) for s in _stmts(_find_func(tree, 'Transitions', 'occupancy'))]
+    want = ['sites = self.sites', 'states = self.states', 'unq, counts = np.unique(states, return_counts=True)', 'counts = counts / len(states)',
+            'occupancies = dict(zip(unq, counts))',
+            'species = [{site.species.elements[0].name: occupancies.get(i, 0)} for i, site in enumerate(sites)]', None]
+    if len(occ) != len(want) or any(w is not None and w != o for w, o in zip(want, occ)):
+        k = next((i for i, (w, o) in enumerate(zip(want, occ)) if w is not None and w != o), len(occ))
+        raise Unsupported('occupancy statement %d: %s' % (k, occ[k][:140] if k < len(occ) else '<missing>'))
+    for need in ('lattice=sites.lattice', 'species=species', 'coords=sites.frac_coords', 'site_properties=sites.site_properties', 'labels=sites.labels'):
+        if need not in occ[6]:
+            raise Unsupported('occupancy: returned Structure lacks `%s`' % need)
+    loop = 'for site in self.occupancy():\n    compositions_by_label[site.label].append(site.species.num_atoms)'
+    bt = [ast.unparse(s) for s in _stmts(_find_func(tree, 'Transitions', 'occupancy_by_site_type'))]
+    if bt != ['compositions_by_label = defaultdict(list)', loop, 'return {k: sum(v) / len(v) for k, v in compositions_by_label.items()}']:
+        raise Unsupported('occupancy_by_site_type: ' + ' | '.join(bt)[:300])
+    al = [ast.unparse(s) for s in _stmts(_find_func(tree, 'Transitions', 'atom_locations'))]
+    if al != ['n = self.n_floating', 'compositions_by_label = defaultdict(list)', loop, 'return {k: sum(v) / n for k, v in compositions_by_label.items()}']:
+        raise Unsupported('atom_locations: ' + ' | '.join(al)[:300])
+    nf = _find_func(tree, 'Transitions', 'n_floating')
+    if [ast.unparse(d) for d in nf.decorator_list] != ['property'] or [ast.unparse(s) for s in _stmts(nf)] != ['return len(self.diff_trajectory.species)']:
+        raise Unsupported('n_floating: ' + ast.unparse(nf)[-80:])
+    cm = [ast.unparse(s) for s in _stmts(_find_func(tree, None, '_calculate_transitions_matrix'))]
+    if cm != ['transitions = np.zeros((n_sites, n_sites), dtype=int)',
+              "idx, counts = np.unique(events[['start site', 'destination site']], return_counts=True, axis=0)",
+              'start_idx, stop_idx = idx.T', 'transitions[start_idx, stop_idx] = counts', 'return transitions']:
+        raise Unsupported('_calculate_transitions_matrix: ' + ' | '.join(cm)[:300])
+    for cls, fn, ret in (('Transitions', 'matrix', 'return _calculate_transitions_matrix(self.events, n_sites=self.n_sites)'),):
+        g = [ast.unparse(s) for s in _stmts(_find_func(tree, cls, fn))]
+        if g != [ret]:
+            raise Unsupported(f'{cls}.{fn}: ' + ' | '.join(g)[:200])
+    jt = _parse('jumps.py')
+    g = [ast.unparse(s) for s in _stmts(_find_func(jt, 'Jumps', 'matrix'))]
+    if g != ['return _calculate_transitions_matrix(self.data, n_sites=self.transitions.n_sites)']:
+        raise Unsupported('Jumps.matrix: ' + ' | '.join(g)[:200])
+
+
+def gen_occupancy():
+    os.makedirs(GEN, exist_ok=True)
+    try:
+        occupancy_unit()
+    except Unsupported as e:
+        return ('occupancy', False, f'translator: unsupported {e}')
+    src = '(* GENERATED (static text harness/occupancy_proof.v.txt, emitted only when the statements of Transitions.occupancy, occupancy_by_site_type,\n' \
+          '   atom_locations, n_floating, _calculate_transitions_matrix and the two matrix() methods are the ones it transcribes) -- do not edit *)\n' \
+          + open(os.path.join(_V, 'harness', 'occupancy_proof.v.txt')).read()
+    open(os.path.join(GEN, 'Occupancy.v'), 'w').write(src)
+    ok, log = compile_gen('Occupancy.v')
+    return ('occupancy: statements of Transitions.occupancy (np.unique counts over the whole state table / frames, get(i, 0)), occupancy_by_site_type (mean over the '
+            'sites of a label), atom_locations (sum over the sites of a label / diffusing atoms), n_floating, _calculate_transitions_matrix and both matrix() methods; '
+            'count over the flattened table = Model.C05.occ_count; the per-label sums add up to the visited (frame, atom) entries and the per-label site counts to '
+            'the number of sites (gen_label_total, gen_label_sites_total)', ok, 'ok' if ok else log[-800:])
